@@ -26,13 +26,16 @@ pub struct Evolver {
     counter: usize,
     /// how many more sites may change (single-step evolutions keep W and R equal everywhere else)
     pub budget: std::cell::Cell<usize>,
+    /// only the steps the specification defines as always safe (C09): promote, add a field with a default,
+    /// remove / reorder fields, add a union branch, add an enum symbol
+    pub safe_only: bool,
 }
 
 const PRIMS: &[&str] = &["null", "boolean", "int", "long", "float", "double", "bytes", "string"];
 
 impl Evolver {
     pub fn new(rate: u32) -> Self {
-        Evolver { applied: vec![], rate, counter: 0, budget: std::cell::Cell::new(usize::MAX) }
+        Evolver { applied: vec![], rate, counter: 0, budget: std::cell::Cell::new(usize::MAX), safe_only: false }
     }
     fn note(&mut self, s: &'static str) {
         if !self.applied.contains(&s) {
@@ -79,7 +82,7 @@ impl Evolver {
             (json!({"type":"array","items":{"type":"record","name":format!("NewR{c}b"),"fields":[{"name":"z","type":["null","double"],"default":null}]}}), json!([{}, {"z": 1.25}])),
         ];
         let (t, d) = rng.pick(&all).clone();
-        if rng.chance(1, 6) {
+        if !self.safe_only && rng.chance(1, 6) {
             self.note("add a field without a default");
             (t, None)
         } else {
@@ -98,9 +101,12 @@ impl Evolver {
             "bytes" => &["string"],
             _ => &[],
         };
-        if !promote.is_empty() && rng.chance(2, 3) {
+        if !promote.is_empty() && (self.safe_only || rng.chance(2, 3)) {
             self.note("promote");
             return Some(*rng.pick(promote));
+        }
+        if self.safe_only {
+            return None;
         }
         let other: Vec<&'static str> = PRIMS.iter().copied().filter(|p| *p != t && !promote.contains(p)).collect();
         self.note("incompatible change of a primitive");
@@ -109,7 +115,7 @@ impl Evolver {
 
     pub fn evolve(&mut self, rng: &mut Rng, j: &J, allow_union: bool) -> J {
         let out = self.evolve_inner(rng, j);
-        if allow_union && !out.is_array() && self.hit(rng) && rng.chance(1, 2) {
+        if allow_union && !self.safe_only && !out.is_array() && self.hit(rng) && rng.chance(1, 2) {
             self.note("wrap in a union");
             return match rng.below(3) {
                 0 => json!(["null", out]),
@@ -124,7 +130,7 @@ impl Evolver {
         match j {
             J::String(t) if PRIMS.contains(&t.as_str()) => {
                 if self.hit(rng) {
-                    if (t == "int" || t == "long") && rng.chance(1, 4) {
+                    if !self.safe_only && (t == "int" || t == "long") && rng.chance(1, 4) {
                         self.note("plain to logical");
                         return if t == "int" { json!({"type":"int","logicalType":"date"}) } else { json!({"type":"long","logicalType":"timestamp-micros"}) };
                     }
@@ -139,7 +145,7 @@ impl Evolver {
             J::String(_) => j.clone(), // a reference
             J::Array(branches) => {
                 let mut bs: Vec<J> = branches.iter().map(|b| self.evolve(rng, b, false)).collect();
-                if self.hit(rng) && bs.len() > 1 {
+                if !self.safe_only && self.hit(rng) && bs.len() > 1 {
                     self.note("remove a union branch");
                     let i = if rng.chance(1, 2) { bs.len() - 1 } else { rng.below(bs.len()) };
                     bs.remove(i);
@@ -154,14 +160,14 @@ impl Evolver {
                         bs.insert(at, b);
                     }
                 }
-                if self.hit(rng) && bs.len() > 1 {
+                if !self.safe_only && self.hit(rng) && bs.len() > 1 {
                     self.note("reorder union branches");
                     let i = rng.below(bs.len());
                     let b = bs.remove(i);
                     let at = rng.below(bs.len() + 1);
                     bs.insert(at, b);
                 }
-                if self.hit(rng) && rng.chance(1, 3) {
+                if !self.safe_only && self.hit(rng) && rng.chance(1, 3) {
                     self.note("unwrap from a union");
                     return rng.pick(&bs).clone();
                 }
@@ -182,7 +188,7 @@ impl Evolver {
                             }
                             let ft = self.evolve(rng, &f["type"].clone(), true);
                             f.insert("type".into(), ft);
-                            if self.hit(rng) && rng.chance(1, 2) {
+                            if !self.safe_only && self.hit(rng) && rng.chance(1, 2) {
                                 let old = f["name"].as_str().unwrap().to_string();
                                 self.counter += 1;
                                 if rng.chance(1, 5) {
@@ -226,7 +232,7 @@ impl Evolver {
                     }
                     Some("enum") => {
                         let mut syms: Vec<J> = m["symbols"].as_array().cloned().unwrap_or_default();
-                        if self.hit(rng) && syms.len() > 1 {
+                        if !self.safe_only && self.hit(rng) && syms.len() > 1 {
                             let i = rng.below(syms.len());
                             let removed = syms.remove(i);
                             if m.get("default") == Some(&removed) {
@@ -247,7 +253,7 @@ impl Evolver {
                             let at = rng.below(syms.len() + 1);
                             syms.insert(at, J::String(format!("N{}", self.counter)));
                         }
-                        if self.hit(rng) && syms.len() > 1 {
+                        if !self.safe_only && self.hit(rng) && syms.len() > 1 {
                             self.note("reorder enum symbols");
                             let i = rng.below(syms.len());
                             let s = syms.remove(i);
@@ -258,7 +264,7 @@ impl Evolver {
                         J::Object(m)
                     }
                     Some("fixed") => {
-                        if m.get("logicalType").is_none() && self.hit(rng) && rng.chance(1, 3) {
+                        if !self.safe_only && m.get("logicalType").is_none() && self.hit(rng) && rng.chance(1, 3) {
                             self.note("change a fixed size");
                             let s = m["size"].as_u64().unwrap_or(0);
                             m.insert("size".into(), json!(s + 1));
@@ -281,7 +287,7 @@ impl Evolver {
                             None => self.evolve_inner(rng, &J::String(p.to_string())),
                             Some("date" | "time-millis" | "time-micros" | "timestamp-millis" | "timestamp-micros" | "timestamp-nanos"
                                 | "local-timestamp-millis" | "local-timestamp-micros" | "local-timestamp-nanos") => {
-                                if self.hit(rng) {
+                                if !self.safe_only && self.hit(rng) {
                                     self.note("logical to underlying");
                                     if rng.chance(1, 3) && p == "int" {
                                         self.note("promote");
@@ -317,7 +323,7 @@ pub struct Side<'a> {
     pub names: &'a NamesRef<'a>,
 }
 
-fn deref<'a>(side: &Side<'a>, s: &'a Schema, ns: Option<String>) -> Result<(&'a Schema, Option<String>), String> {
+pub fn deref<'a>(side: &Side<'a>, s: &'a Schema, ns: Option<String>) -> Result<(&'a Schema, Option<String>), String> {
     let mut s = s;
     let mut ns = ns;
     loop {
@@ -333,7 +339,7 @@ fn deref<'a>(side: &Side<'a>, s: &'a Schema, ns: Option<String>) -> Result<(&'a 
     }
 }
 
-fn inner_ns(s: &Schema, ns: &Option<String>) -> Option<String> {
+pub fn inner_ns(s: &Schema, ns: &Option<String>) -> Option<String> {
     let n = match s {
         Schema::Record(r) => Some(&r.name),
         Schema::Enum(e) => Some(&e.name),
@@ -347,7 +353,7 @@ fn inner_ns(s: &Schema, ns: &Option<String>) -> Option<String> {
 }
 
 #[derive(PartialEq, Clone, Copy, Debug)]
-enum Match {
+pub enum Match {
     Exact,
     Promotable,
     No,
@@ -359,7 +365,7 @@ fn logical_long(s: &Schema) -> bool {
 }
 
 /// shallow match of a writer schema with a reader (union branch) schema
-fn shallow(w: &Schema, r: &Schema) -> Match {
+pub fn shallow(w: &Schema, r: &Schema) -> Match {
     use Schema::*;
     if std::mem::discriminant(w) == std::mem::discriminant(r) {
         return match (w, r) {
@@ -620,7 +626,7 @@ pub fn default_value(rs: &Side, s: &Schema, ns: Option<String>, j: &J) -> Result
 
 // ---------------------------------------------------------------------------------------------
 
-fn kind_name(s: &Schema) -> String {
+pub fn kind_name(s: &Schema) -> String {
     match s {
         Schema::Decimal(d) => format!("decimal({})", if matches!(d.inner, InnerDecimalSchema::Bytes) { "bytes" } else { "fixed" }),
         Schema::Uuid(UuidSchema::String) => "uuid(string)".into(),
